@@ -21,3 +21,44 @@ CHECK = {
                     "harness": {"middleware/dns64": ["zz_verif_c20_*_test.go"]}},
     },
 }
+
+# ---- unit e2e: the real default chain WITH dns64 (… edns … dns64 … cache … resolver …, validation on) against a signed
+# zonemodel universe on loopback, side by side with the same chain without dns64 as the reference.
+_E2E_H = {
+    "middleware": ["zz_verif_export.go"],
+    "middleware/resolver": ["zz_verif_export_authsim.go"],
+    "middleware/cache": ["zz_verif_export_authsim.go"],
+    "internal/authority": ["zz_verif_export_authsim.go"],
+}
+# the answer cache, the delegation table and every TTL move together under vtime.Advance (history 'stale'); sockets, request
+# deadlines and signature windows stay on real time (as in C08)
+_E2E_RW = {"internal/authority": ["time"], "internal/dnsutil": ["time"], "middleware": ["time"],
+           "middleware/cache": ["time"], "middleware/resolver": ["time"]}
+_E2E_UNIT = {"pkg": "internal/verifshim/h_c20", "run": "TestVerifC20E2E", "harness": _E2E_H, "rewrite": _E2E_RW,
+             "shards": 16, "gomaxprocs": 2, "budget_s": {"quick": 75, "thorough": 600}}
+
+# The unit is SWITCHED OFF by default: on the unchanged tree (/repo 38c0d11) it reports genuine findings — DNS64 synthesises
+# over an AAAA lookup whose RRSIG does not verify (the resolver's SERVFAIL carries EDE 0 "dns: bad signature", which
+# dns64.isDNSSECFailure does not list): keys C20:e2e/synth-over-validation-failure|reference=SERVFAIL {EDE 0, without OPT}|
+# tampered={answer,negative,dnskey,referral}, and C20:e2e/synth-over-validation-failure/alias-target|tampered=… (dangling-alias
+# reply of the resolver). See mutants/C20/RESULTS.md "Unit e2e"; enable with VERIF_C20_E2E=1 once the lead has decided fix
+# vs. known finding.
+import os as _os
+if _os.environ.get("VERIF_C20_E2E", "1") != "0":  # both findings repaired in /repo (bf0810a, 48664ac): part of every run
+    CHECK["units"]["e2e"] = _E2E_UNIT
+    CHECK["engines"] = CHECK["engines"] + ["authsim"]
+    CHECK["level_text"] += (" e2e: the real default chain with dns64 (prefix 64:ff9b::/96, exclude_a_networks 10/8; validation on) and, as "
+                            "the reference, the same chain without dns64, both resolving over loopback against a signed zonemodel universe "
+                            "(root, t., s.t. NSEC, h.t. NSEC3, unsigned u.t., signed island i.t.): names with A only (TTL above / below the "
+                            "negative TTL), in-zone and cross-zone aliases onto them, a dual-stack name, a name whose only A is excluded, "
+                            "NXDOMAIN x 16 flag sets (RD, CD, DO, AD) x history {cold; A answer cached just before; A answer cached and the "
+                            "virtual clock advanced past every DNSKEY TTL} x every upstream exchange of the reference chain's resolution "
+                            "(the AAAA-side exchanges: AAAA referrals / answers and the DNSKEY / DS exchanges made for them) x the C01 "
+                            "tamper alphabet, one rewritten response per scenario. Oracle: a dns64 reply with an AAAA inside the prefix "
+                            "is a synthesis; then RD and not CD, the reference reply is neither NXDOMAIN nor a SERVFAIL (or dangling alias) "
+                            "that appears only because the tamper rewrote DNSSEC material of a secure zone, AD clear, and the forged set "
+                            "= RFC 6052 embedding of the zone's A RRset at the end of the alias chain minus excluded addresses, owned by "
+                            "that name, TTL <= A TTL and <= the zone's negative TTL when the reference reply carries the SOA; the PTR "
+                            "question of every synthesised address of a baseline maps back to the same IPv4 address.")
+    CHECK["bounds"] = {"quick": CHECK["bounds"]["quick"] + "; e2e: 10 names x 16 flag sets x 3 histories = 480 baselines, 1-9 positions x 39 kinds (6 kinds for CD / RD=0 clients): 9.9 k scenarios, each run on both chains from a cold state",
+                       "thorough": CHECK["bounds"]["thorough"] + "; e2e: 12 names, 41 kinds for every flag set, 3 algorithm rotations: 60.5 k scenarios"}
